@@ -443,6 +443,12 @@ def run(ctx) -> None:
         e = PS._subst(e, env)
         if isinstance(e, ast.Name):
             e = PS.resolve(e, at)
+        if isinstance(e, ast.Name):
+            # a module-level table of constants
+            mods_ = [s_ for s_ in tp.module.tree.body if isinstance(s_, ast.Assign) and len(s_.targets) == 1 and isinstance(s_.targets[0], ast.Name)
+                     and s_.targets[0].id == e.id] if hasattr(tp.module, "tree") else []
+            if len(mods_) == 1:
+                e = mods_[0].value
         if isinstance(e, ast.Call) and not (call_name(e) == "range"):
             e2 = PS.resolve(e, at)
             e = e2
@@ -470,13 +476,19 @@ def run(ctx) -> None:
 
     def unroll(body, env):
         for s_ in body:
-            if isinstance(s_, ast.For) and isinstance(s_.target, ast.Name):
+            if isinstance(s_, ast.For) and isinstance(s_.target, (ast.Name, ast.Tuple)):
                 els = elements(s_.iter, env, PS.cfg.node(s_))
                 if els is None:
                     raise AnalysisError(f"TetraWeightsParal: cannot enumerate `{norm1(s_.iter)}`")
                 for el in els:
                     e2 = dict(env)
-                    e2[s_.target.id] = el
+                    if isinstance(s_.target, ast.Name):
+                        e2[s_.target.id] = el
+                    elif isinstance(el, (ast.Tuple, ast.List)) and len(el.elts) == len(s_.target.elts) and all(isinstance(t_, ast.Name) for t_ in s_.target.elts):
+                        for t_, v_ in zip(s_.target.elts, el.elts):
+                            e2[t_.id] = v_
+                    else:
+                        raise AnalysisError(f"TetraWeightsParal: cannot bind `{norm1(s_.target)}` to the elements of `{norm1(s_.iter)}`")
                     unroll(s_.body, e2)
             else:
                 for cc in [x for x in ast.walk(s_) if isinstance(x, ast.Call) and call_name(x) == "weights_tetra"]:
